@@ -122,6 +122,20 @@ def stress_documents(rng, quick):
         docs.append(("info", J + b"INFO\n  Description\n    " + t + b"\nGET /a // " + t + b"\n  200 any // " + t + b"\n"))
     docs.append(("info", J))
     docs.append(("info", J + b"GET /a\n  200 any\n"))
+    # a request or response without a body at the k-th of n interactions (every validation loop must reach every interaction)
+    good = [b"  200 any\n", b"  200\n    Body any\n", b"  Request any\n  200 any\n", b"  201 @t\n", b"  200 any\n  404 any\n"]
+    lacking = [b"  200\n", b"  200\n    Headers\n      {}\n", b"  Request\n    Headers\n      {}\n  200 any\n", b"  200 any\n  404\n    Headers\n      {}\n",
+               b"  404 any\n  200\n", b"  Request\n  200 any\n"]
+    for n in (1, 2, 3, 4):
+        for k in range(n):
+            for li, l in enumerate(lacking):
+                d = J + b"TYPE @t\n  {}\n"
+                for i in range(n):
+                    if (i + li) % 3 == 2 and i != k:
+                        d += b"URL /r%d\n  Protocol json-rpc-2.0\n  Method m\n    Params\n      {}\n" % i
+                    else:
+                        d += (b"POST" if b"Request" in (l if i == k else good[(i + li) % len(good)]) else b"GET") + b" /p%d\n" % i + (l if i == k else good[(i + li) % len(good)])
+                docs.append(("bodies", d))
     return docs
 
 
